@@ -95,7 +95,7 @@ Proof.
   { intros rows Hrw. assert (rows * cols <= 134217728) by nia.
     assert ((cols + 7) / 8 * 8 <= cols + 7) by (pose proof (Z.mul_div_le (cols + 7) 8); lia).
     repeat split; try lia; nia. }
-  destruct ((c_rows c <=? 0) || (geo <? c_rows c)) eqn:E; apply Hrows; lia.
+  destruct ((0 <? c_rows c) && (c_rows c <? geo)) eqn:E; apply Hrows; lia.
 Qed.
 
 (* parsed Flate/LZW parameters that pass Validate give bounded rows and a bounded charge *)
